@@ -779,3 +779,14 @@ def g11_suffix_claimed(ctx):
 
 
 RULES.append(('G11', g11_suffix_claimed))
+
+
+def g12_lexical(ctx):
+    """G12 decimal literals of every separator convention are number tokens (E7b lexical competition model: month stage, regex families in TOKEN_REGEX_PARSER order with first-claim-wins,
+    alias stage; samples generated from the configuration)"""
+    from ..lexrules import run_samples, number_samples, based_samples, money_samples, unit_samples, month_samples, zone_samples, duration_samples, percent_samples, keyword_samples
+    ctx.rule('G12', 'decimal literals of every separator convention are number tokens', floor=80)
+    run_samples(ctx, 'G12', number_samples())
+
+
+RULES.append(('G12', g12_lexical))
